@@ -4,7 +4,7 @@
 use crate::ast::*;
 use crate::drive::Ctx;
 use crate::engine::{Outcome, Profile, PropMeta, Space, Tier};
-use crate::gen_prog::{Gen, seq_range};
+use crate::gen_prog::{triple, Gen, seq_range};
 use crate::props::refcmp::{self, CmpOpts};
 
 pub fn meta(_tier: Tier) -> PropMeta {
@@ -116,6 +116,58 @@ fn programs(max_len: u32, core: bool) -> Gen<Vec<S>> {
     })
 }
 
+/// Arrays held by *activations*: a recursive function's local, its parameter, and its local as
+/// captured by a nested function, mutated in place before and/or after the recursive call.
+/// A mutation made by one activation must land in that activation's array only.
+fn activations() -> Gen<Vec<S>> {
+    // (target, mutation): target 0 = local `loc`, 1 = parameter `p`, 2 = `loc` through a nested function
+    let mutate = |target: u8, m: u8| -> Vec<S> {
+        if target == 2 {
+            return vec![S::Expr(call(&format!("m{m}"), vec![]))];
+        }
+        let x = || var(if target == 0 { "loc" } else { "p" });
+        mutation(x(), m)
+    };
+    let mut steps: Vec<Option<(u8, u8)>> = vec![None];
+    for t in 0..3u8 {
+        for m in 0..5u8 {
+            steps.push(Some((t, m)));
+        }
+    }
+    let steps = Gen::of(steps);
+    let depth = Gen::of(vec![1u32, 2, 3]);
+    triple(&steps, &steps, &depth, move |pre, post, d| {
+        let mut body = vec![make("loc", E::Arr(vec![E::Arr(vec![var("n")]), bin(Op::Add, var("n"), num("0.5"))]))];
+        for m in 0..5u8 {
+            body.push(func(&format!("m{m}"), &[], mutation(var("loc"), m)));
+        }
+        if let Some((t, m)) = pre {
+            body.extend(mutate(t, m));
+        }
+        body.push(S::If(
+            bin(Op::Gt, var("n"), num("0")),
+            vec![S::Expr(call("rec", vec![bin(Op::Sub, var("n"), num("1")), E::Arr(vec![E::Arr(vec![var("n")]), st("p")])]))],
+            None,
+        ));
+        if let Some((t, m)) = post {
+            body.extend(mutate(t, m));
+        }
+        body.push(shout(var("loc")));
+        body.push(shout(var("p")));
+        vec![func("rec", &["n", "p"], body), S::Expr(call("rec", vec![num(&d.to_string()), E::Arr(vec![E::Arr(vec![num("100")]), st("top")])]))]
+    })
+}
+
+fn mutation(x: E, m: u8) -> Vec<S> {
+    match m {
+        0 => vec![S::Expr(meth(x, "push", vec![var("n")]))],
+        1 => vec![shout(meth(x, "pop", vec![]))],
+        2 => vec![S::Expr(meth(x, "reverse", vec![]))],
+        3 => vec![S::SetIdx(idx(x, num("0")), bin(Op::Mul, var("n"), num("10")))],
+        _ => vec![S::Expr(meth(idx(x, num("0")), "push", vec![st("deep")]))],
+    }
+}
+
 pub fn programs_for_c14() -> Gen<Vec<S>> {
     programs(2, false)
 }
@@ -126,6 +178,7 @@ pub fn spaces(tier: Tier) -> Vec<Box<dyn Space>> {
     v.push(Box::new(ArrSpace { id: "hist-all-le2".into(), generator: programs(2, false), profile: Profile::Poison }));
     v.push(Box::new(ArrSpace { id: "hist-core-le3".into(), generator: programs(3, true), profile: Profile::Poison }));
     v.push(Box::new(ArrSpace { id: "hist-all-le3".into(), generator: programs(3, false), profile: Profile::Fast }));
+    v.push(Box::new(ArrSpace { id: "activations".into(), generator: activations(), profile: Profile::Poison }));
     if t {
         v.push(Box::new(ArrSpace { id: "hist-core-le5".into(), generator: programs(5, true), profile: Profile::Fast }));
         v.push(Box::new(ArrSpace { id: "hist-core-le4".into(), generator: programs(4, true), profile: Profile::Poison }));
